@@ -39,9 +39,65 @@ pub enum RecursiveMode {
     Recursive,
     NonRecursive,
 }
+/// notify 6 event classification (the public enums of `notify::event`)
+pub mod event {
+    #[derive(Debug, Clone, Copy, PartialEq, Eq, Hash)]
+    pub enum AccessMode { Any, Execute, Read, Write, Other }
+    #[derive(Debug, Clone, Copy, PartialEq, Eq, Hash)]
+    pub enum AccessKind { Any, Read, Open(AccessMode), Close(AccessMode), Other }
+    #[derive(Debug, Clone, Copy, PartialEq, Eq, Hash)]
+    pub enum CreateKind { Any, File, Folder, Other }
+    #[derive(Debug, Clone, Copy, PartialEq, Eq, Hash)]
+    pub enum DataChange { Any, Size, Content, Other }
+    #[derive(Debug, Clone, Copy, PartialEq, Eq, Hash)]
+    pub enum MetadataKind { Any, AccessTime, WriteTime, Permissions, Ownership, Extended, Other }
+    #[derive(Debug, Clone, Copy, PartialEq, Eq, Hash)]
+    pub enum RenameMode { Any, To, From, Both, Other }
+    #[derive(Debug, Clone, Copy, PartialEq, Eq, Hash)]
+    pub enum ModifyKind { Any, Data(DataChange), Metadata(MetadataKind), Name(RenameMode), Other }
+    #[derive(Debug, Clone, Copy, PartialEq, Eq, Hash)]
+    pub enum RemoveKind { Any, File, Folder, Other }
+    #[derive(Debug, Clone, Copy, PartialEq, Eq, Hash, Default)]
+    pub enum EventKind {
+        #[default]
+        Any,
+        Access(AccessKind),
+        Create(CreateKind),
+        Modify(ModifyKind),
+        Remove(RemoveKind),
+        Other,
+    }
+    impl EventKind {
+        pub fn is_access(&self) -> bool { matches!(self, EventKind::Access(_)) }
+        pub fn is_create(&self) -> bool { matches!(self, EventKind::Create(_)) }
+        pub fn is_modify(&self) -> bool { matches!(self, EventKind::Modify(_)) }
+        pub fn is_remove(&self) -> bool { matches!(self, EventKind::Remove(_)) }
+        pub fn is_other(&self) -> bool { matches!(self, EventKind::Other) }
+    }
+    #[derive(Debug, Clone, Default, PartialEq, Eq, Hash)]
+    pub struct EventAttributes;
+    pub use super::Event;
+    /// event kind selected by the schedule (`eventkind <code>`, default 0)
+    pub fn kind_from_code(c: u8) -> EventKind {
+        match c {
+            1 => EventKind::Create(CreateKind::File),
+            2 => EventKind::Remove(RemoveKind::File),
+            3 => EventKind::Modify(ModifyKind::Name(RenameMode::From)),
+            4 => EventKind::Modify(ModifyKind::Name(RenameMode::To)),
+            5 => EventKind::Modify(ModifyKind::Name(RenameMode::Both)),
+            6 => EventKind::Any,
+            7 => EventKind::Modify(ModifyKind::Any),
+            8 => EventKind::Create(CreateKind::Any),
+            _ => EventKind::Modify(ModifyKind::Data(DataChange::Any)),
+        }
+    }
+}
+pub use event::EventKind;
 #[derive(Debug, Clone, Default)]
 pub struct Event {
+    pub kind: EventKind,
     pub paths: Vec<PathBuf>,
+    pub attrs: event::EventAttributes,
 }
 pub trait EventHandler: 'static {
     fn handle_event(&mut self, event: Result<Event>);
@@ -69,7 +125,7 @@ impl Watcher for RecommendedWatcher {
             if is_err {
                 event_handler.handle_event(Err(Error { kind: ErrorKind::Generic("injected".into()), paths }));
             } else {
-                event_handler.handle_event(Ok(Event { paths }));
+                event_handler.handle_event(Ok(Event { kind: event::kind_from_code(zx_rt::rt().event_kind), paths, attrs: Default::default() }));
             }
         }));
         zx_rt::log(&format!("watcher w{} task={}", id, rt.cur_task));
